@@ -38,7 +38,7 @@ _TMP = None
 def tmpdir():
     global _TMP
     if _TMP is None or not os.path.isdir(_TMP):
-        _TMP = tempfile.mkdtemp(prefix='dadi-verif-c13-', dir='/var/tmp')
+        _TMP = tempfile.mkdtemp(prefix='dadi-verif-c13-', dir=os.environ.get('DADI_VERIF_SCRATCH') or '/var/tmp')
         atexit.register(shutil.rmtree, _TMP, True)
     return _TMP
 
